@@ -41,9 +41,14 @@ def fields(line):
 
 # ---------------------------------------------------------------- protocol tie
 
-def check_protocol(impl, model, path, fname, seed, nedits):
+def dirty(state):
+    """insns of a printed function state whose insn->data is not NULL"""
+    return [x for x in state.split('/')[0].split(':') if x and x.endswith('.1')]
+
+
+def check_protocol(impl, model, path, fname, seed, nedits, interp=False):
     """None when implementation and model agree and the function is intact, else a description"""
-    line = 'P %s %s %d %d' % (path, fname, seed, nedits)
+    line = 'P %s %s %d %d%s' % (path, fname, seed, nedits, ' i' if interp else '')
     rc, out, err = vlib.run_lines(impl, [line], timeout=120)
     o = ' '.join(out)
     d = fields(o)
@@ -52,6 +57,11 @@ def check_protocol(impl, model, path, fname, seed, nedits):
     for k in ('init', 'dup', 'work', 'final'):
         if '!' in d[k]:
             return 'a register number does not lead back to the name it was declared with (state %s): %s' % (k, d[k].split('/')[6][:300]), d
+    # theorem interpretation_leaves_no_data / copies_clean_iff_function_clean against the code: outside generation
+    # (also right after the function ran in the interpreter) no insn carries data, so the working copy is clean
+    for k in ('init', 'dup', 'final'):
+        if dirty(d[k]):
+            return 'insn->data left set (state %s%s): %s' % (k, ', function interpreted before' if interp else '', dirty(d[k])[:5]), d
     rc2, mout, merr = vlib.run_lines(model, ['P init=%s script=%s' % (d['init'], d['script'])])
     if rc2 != 0 or not mout or mout[0].startswith('BAD'):
         raise vlib.BuildError('model driver failed: %s %s' % (mout[:1], merr[-300:]))
@@ -290,10 +300,15 @@ def run(chk):
             f = rng.choice(prog['funcs'])
             seed = rng.getrandbits(31)
             ned = rng.choice([0, 1, 3, 8, 20, 40])
-            chk.count(('P', prog['text'], f['name'], seed, ned), nontrivial=ned > 0)
+            # half of the cases: the function has run in the interpreter before (lref functions excluded: the
+            # interpreter keeps label addresses in their data, and the P context never generates anyway -- but
+            # a variadic function cannot be entered through MIR_interp_arr with no variable arguments described)
+            interp = rng.random() < 0.5
+            chk.count(('P', prog['text'], f['name'], seed, ned, interp), nontrivial=ned > 0)
             chk.dist('proto_edits', ned)
             chk.dist('proto_lref_func', 'lref' if f['lref'] else 'plain')
-            why, d = check_protocol(impl, model, path, f['name'], seed, ned)
+            chk.dist('proto_interpreted_first', interp)
+            why, d = check_protocol(impl, model, path, f['name'], seed, ned, interp)
             if d and k == 0:
                 chk.sample('P %s seed=%d edits=%d script=%s' % (f['name'], seed, ned, d.get('script', '')[:200]))
             if why:
@@ -301,12 +316,12 @@ def run(chk):
                 # shrink the number of edits
                 small = ned
                 for n2 in range(0, ned):
-                    w2, _ = check_protocol(impl, model, path, f['name'], seed, n2)
+                    w2, _ = check_protocol(impl, model, path, f['name'], seed, n2, interp)
                     if w2:
                         small, why = n2, w2
                         break
                 chk.finding('proto:' + hashlib.sha1((prog['text'] + f['name'] + str(seed)).encode()).hexdigest()[:12],
-                            dict(kind='proto', text=prog['text'], func=f['name'], seed=seed, nedits=small, what=why),
+                            dict(kind='proto', text=prog['text'], func=f['name'], seed=seed, nedits=small, interp=interp, what=why),
                             'duplicate/edit/restore: %s  [function %s, seed %d, %d edits]' % (why[:300], f['name'], seed, small))
                 break
         if k == 0:
@@ -360,7 +375,7 @@ def replay(chk, path):
     impl, model = build()
     p = write_prog(rp['text'], 'replay')
     if rp.get('kind') == 'proto':
-        why, d = check_protocol(impl, model, p, rp['func'], rp['seed'], rp['nedits'])
+        why, d = check_protocol(impl, model, p, rp['func'], rp['seed'], rp['nedits'], rp.get('interp', False))
         print('P %s %s %d %d' % (p, rp['func'], rp['seed'], rp['nedits']))
         print(why or 'agree')
         return 1 if why else 0
